@@ -217,6 +217,10 @@ def gen_case(rng, frontend=None):
     probe = gen_probe(rng, framer, units, single, bcast)
     if probe is None:
         return None
+    if fe == 'syncTcp' and rng.random() < 0.3:
+        # the connection sat idle past the socket's receive timeout once before the traffic starts (the handler's recv raised
+        # socket.timeout and it went on): nothing that happens later may depend on that
+        chunks, kinds = [None] + list(chunks), ['idle-timeout'] + list(kinds)
     # connection 0 = A (hostile), 1 = B (open and idle from the start), 2 = C (fresh: first used after the hostile traffic)
     sched = [[0, c] for c in chunks] + [[1, probe['frame']], [2, probe['frame']]]
     return dict(frontend=fe, framer=framer, single=single, units=units, ignore_missing=ignore, broadcast=bcast,
@@ -239,14 +243,14 @@ def check(ctx, rep, cases):
             if '+' in k:
                 rep.hist['several-frames-in-one-read'] += 1
         rep.hist['A-closed-by-server' if not alive[len(kinds) - 1] else 'A-still-served'] += 1
-        rep.sample({'frontend': c['frontend'], 'framer': c['framer'], 'kinds': kinds[:6], 'first_chunk': c['schedule'][0][1][:24],
+        rep.sample({'frontend': c['frontend'], 'framer': c['framer'], 'kinds': kinds[:6], 'first_chunk': next((ch for _, ch in c['schedule'] if ch), [])[:24],
                     'written_per_chunk': [sum(len(f) for f in o) for o in outs][:8]}, cap=6)
         # (a)
         if any(escs):
             i = next(i for i, e in enumerate(escs) if e)
             rep.violation('the serving loop never came back from a receive call (it hangs: other and future connections are not served)'
                           if escs[i] == 'hang' else 'an exception escaped the serving entry point of the front-end', case, index=i, escaped=escs[i],
-                          chunk=c['schedule'][i][1][:64])
+                          chunk=(c['schedule'][i][1] or [])[:64])
             continue
         # (b)
         same = serverlib.compare(rep, case, real, a, 'hostile history vs Server.connStep')
@@ -280,7 +284,7 @@ def check(ctx, rep, cases):
         if badk is not None and same:
             rep.hist['excluded:write-completed-across-reads'] += 1      # (as above: the change was made by a valid frame the model executes too)
         elif badk is not None:
-            rep.violation('a write request whose byte count contradicts its quantity changed the datastore', case, index=badk, written=outs[badk], chunk=c['schedule'][badk][1][:80])
+            rep.violation('a write request whose byte count contradicts its quantity changed the datastore', case, index=badk, written=outs[badk], chunk=(c['schedule'][badk][1] or [])[:80])
             continue
         # a read that is answered with exception responses only, or not at all, prescribes no change (broadcast off:
         # every executed request is answered)
@@ -291,7 +295,7 @@ def check(ctx, rep, cases):
                     fcs = [serverlib.frame_fc(c['framer'], f) for f in o]
                     if all(fc is not None and fc >= 0x80 for fc in fcs):
                         rep.violation('the datastore changed in a step whose requests were all rejected (exception responses only) or not '
-                                      'answered at all', case, index=i, written=o, chunk=c['schedule'][i][1][:80])
+                                      'answered at all', case, index=i, written=o, chunk=(c['schedule'][i][1] or [])[:80])
                         bad = True
                         break
                 prev = now
